@@ -2199,6 +2199,13 @@ package ast
 //@   invariant@1[C12] catkept: cat == old(cat)
 //@   invariant@2[C12] linked: catWF(cat) ==> (forall k string {cat.Data[k]} :: has(cat.Data, k) ==> has(importTable, k) && nodeOK(importTable[k], cat.Data[k])) && (forall k1 string, k2 string {importTable[k1], importTable[k2]} :: has(cat.Data, k1) && has(cat.Data, k2) && k1 != k2 ==> importTable[k1] != importTable[k2]) && (forall j int {$keys[j]} :: 0 <= j && j < $i ==> linksOK(importTable[$keys[j]], cat.Data[$keys[j]], importTable))
 //@   invariant@2[C12] catkept: cat == old(cat)
+// the two variable index lists are rebuilt element for element, in the stored order (loops 9 and 11 are the inner loops of the two
+// index rebuilders): a list that lost or reordered an entry makes the loaded knowledge base forget less than the stored one (seed C12h)
+// the list-valued links (loops 3 and 4, inside the linking loop): one slot per stored id, slot n = the node rebuilt for the n-th id
+//@   invariant@3[C12] args: len(as(importTable[astID], *ArgumentList).Arguments) == len(as(meta, *ArgumentListMeta).ArgumentASTIDs) && (forall n int :: 0 <= n && n < $i ==> as(importTable[astID], *ArgumentList).Arguments[n] == importTable[as(meta, *ArgumentListMeta).ArgumentASTIDs[n]])
+//@   invariant@4[C12] thens: len(as(importTable[astID], *ThenExpressionList).ThenExpressions) == len(as(meta, *ThenExpressionListMeta).ThenExpressionIDs) && (forall n int :: 0 <= n && n < $i && has(importTable, as(meta, *ThenExpressionListMeta).ThenExpressionIDs[n]) ==> as(importTable[astID], *ThenExpressionList).ThenExpressions[n] == importTable[as(meta, *ThenExpressionListMeta).ThenExpressionIDs[n]])
+//@   invariant@9[C12] idxE: len(workingMem.expressionVariableMap[as(importTable[key], *Variable)]) == len(value) && (forall n int :: 0 <= n && n < $i ==> workingMem.expressionVariableMap[as(importTable[key], *Variable)][n] == importTable[value[n]])
+//@   invariant@11[C12] idxA: len(workingMem.expressionAtomVariableMap[as(importTable[key], *Variable)]) == len(value) && (forall n int :: 0 <= n && n < $i ==> workingMem.expressionAtomVariableMap[as(importTable[key], *Variable)][n] == importTable[value[n]])
 //@   ensures err == nil ==> kb != nil
 //@   ensures[C12] header: err == nil ==> kb.Name == cat.KnowledgeBaseName && kb.Version == cat.KnowledgeBaseVersion && kb.WorkingMemory != nil && kb.WorkingMemory.Name == cat.MemoryName && kb.WorkingMemory.Version == cat.MemoryVersion
 
